@@ -242,6 +242,7 @@ class Program:
         self.root = root or REPO
         self.modules = {}
         overlay = overlay or {}
+        self.overlay = dict(overlay)
         paths = sorted(glob.glob(os.path.join(self.root, PKG, "**", "*.py"), recursive=True))
         rels = [os.path.relpath(p, self.root) for p in paths]
         for r in overlay:
